@@ -44,11 +44,19 @@ def build_article(cfg):
         else:
             attrs['id'] = sa.Column(sa.Integer, primary_key=True, autoincrement=False)
         attrs['a'] = sa.Column(sa.Integer)
-        attrs['b'] = sa.Column(sa.Integer)
+        if cfg.get('modattr'):
+            # the second data column is mapped under an attribute whose name ends like a modification flag
+            attrs['last_mod'] = sa.Column(sa.Integer)
+        else:
+            attrs['b'] = sa.Column(sa.Integer)
         if opts is None:
             del attrs['__versioned__']
         env.Article = type('Article', (Base,), attrs)
     return build
+
+
+def bcol(cfg):
+    return 'last_mod' if cfg.get('modattr') else 'b'
 
 
 def keycols(cfg):
@@ -127,7 +135,7 @@ def load_rows(env, cfg, rows, with_parents=True, mods=None):
         if cfg['strategy'] == 'validity':
             d[endc] = r['end']
         d['operation_type'] = r['op']
-        d['a'], d['b'] = r['dat']
+        d['a'], d[bcol(cfg)] = r['dat']
         if mods is not None:
             d['a_mod'], d['b_mod'] = r.get('mod', [False, False])
         payload.append(d)
@@ -154,7 +162,7 @@ def read_rows(env, cfg, with_mods=False):
     for row in env.connection.execute(sa.select(vt)).mappings():
         r = dict(key=[row[c] for c in kc], tx=row[txc],
                  end=row[endc] if cfg['strategy'] == 'validity' else None,
-                 op=row['operation_type'], dat=[row['a'], row['b']])
+                 op=row['operation_type'], dat=[row['a'], row[bcol(cfg)]])
         if with_mods:
             r['mod'] = [bool(row['a_mod']), bool(row['b_mod'])]
         out.append(r)
